@@ -354,7 +354,7 @@ def beta_gate(ctx, fb, T):
     ctx.floor(R, 'beta-gated output reads', ngated, 14)
     for k in post:
         if k not in used:
-            ctx.inst(R, 'stale-table:' + k, False, 'post_init table entry matches no site (anchor moved): re-review', '')
+            ctx.note('C16 post_init table entry %s matches no site any more (the read was removed or is now guarded): entry can be dropped' % k)
 
 
 def _len_zero_guard(f, g):
